@@ -186,13 +186,18 @@ def run(tier, seed):
     parked = gen.parked_restart_family()
     for backend in ("memory", "path"):
         corecheck.validate(chk, gen.std_cfg(ns=1, backend=backend), gen.STD_TREE, parked if tier != "quick" else parked[::2], label="parked-rest:" + backend)
+    # 5. commands on the control connection while the session's own transfer is moving data
+    mid = gen.midtransfer_family()
+    for backend in ("memory", "path"):
+        corecheck.validate(chk, gen.std_cfg(ns=1, backend=backend), gen.STD_TREE, mid if tier != "quick" else mid[::2], label="midtransfer:" + backend)
     chk.cov["rule"] = ("real client streams (upload_stream / append_stream / download_stream with offset) against the real server: "
                        "payload lengths 0,1,B-1,B,B+1,2B,2B+1,3B for block sizes B, position-tagged bytes, CR/LF/NUL/IAC runs, all 256 "
                        "values, existing lengths 0,2,5, restart offsets 0/inside/at end/beyond, client write chunkings and read sizes, "
                        "network segment sizes and latencies, EPSV/PASV, three backends, throttled; Transfer.tla judges stored and "
                        "delivered bytes, visibility to another session after the 226, stat and listing size; each execution is also "
                        "validated against FtpCore; wire-level family: a second session stats, lists or downloads the file while the transfer "
-                       "is held in its j-th read or write; REST n / transfer command / other commands / only then the data connection; "
+                       "is held in its j-th read or write; REST n / transfer command / other commands / only then the data connection; control commands (PASV, EPSV, ...) "
+                       "while the session's own transfer is moving data; "
                        "distinct = distinct cases")
     chk.cov["distinct_nontrivial"] = len({json.dumps(c, sort_keys=True) for c in cases})
     chk.sample({k: v for k, v in cases[5].items()})
